@@ -71,7 +71,7 @@ func GenSet(r *core.Rng, o SetOpts) Set {
 	// shared helpers: context-preserving, context-changing and leaf helpers
 	var defs strings.Builder
 	nh := 1 + r.Intn(3)
-	var leafs, blocks []string
+	var leafs, blocks, statics []string
 	for i := 0; i < nh; i++ {
 		name := fmt.Sprintf("h%d", i)
 		var body string
@@ -83,8 +83,14 @@ func GenSet(r *core.Rng, o SetOpts) Set {
 			body = r.Pick([]string{"{{.}}", "{{.}}", "x{{.}}", "{{. | html}}", "{{print .}}"})
 			leafs = append(leafs, name)
 		case 3:
-			body = `<b>{{$.S0}}</b>`
-			blocks = append(blocks, name)
+			if r.Bool() {
+				// static text only, with characters the escaper rewrites in some contexts
+				body = r.Pick([]string{"1 < 2", "a <b> c < d", "<!-- c -->x", "x < y && y > z", "a &amp; b <", "<i>s</i>"})
+				statics = append(statics, name)
+			} else {
+				body = `<b>{{$.S0}}</b>`
+				blocks = append(blocks, name)
+			}
 		default:
 			body = g.items(1 + r.Intn(2))
 			blocks = append(blocks, name)
@@ -157,6 +163,10 @@ func GenSet(r *core.Rng, o SetOpts) Set {
 					}
 				} else if len(blocks) > 0 {
 					call = `{{template "` + blocks[r.Intn(len(blocks))] + `" $}}`
+				}
+				if len(statics) > 0 && r.Intn(3) == 0 {
+					h := statics[r.Intn(len(statics))]
+					call = r.Pick([]string{`<p>{{template "` + h + `"}}</p>`, `<script>if ({{template "` + h + `"}}) f();</script>`, `<textarea>{{template "` + h + `"}}</textarea>`, `<p title="{{template "` + h + `"}}">t</p>`, `<title>{{template "` + h + `"}}</title>`, `{{template "` + h + `"}}`})
 				}
 			}
 			if r.Bool() {
